@@ -1,0 +1,118 @@
+//go:build verif
+
+package apk
+
+import (
+	"context"
+	"fmt"
+	"maps"
+	"slices"
+	"sort"
+	"strings"
+)
+
+// Hooks for the C08 verification harness (build tag verif only): reset and
+// inspect the process-wide resolver / disqualification caches and memo tables.
+
+// VerifResetResolverCaches empties the resolver trie, the disqualification
+// trie and the two memo tables, so that the next resolution behaves as in a
+// fresh process. Must not be called while resolutions are running.
+func VerifResetResolverCaches() {
+	globalResolverCache.Lock()
+	globalResolverCache.children = nil
+	globalResolverCache.pr = nil
+	globalResolverCache.Unlock()
+
+	globalDisqualifyCache.Lock()
+	globalDisqualifyCache.children = nil
+	globalDisqualifyCache.dq = nil
+	globalDisqualifyCache.Unlock()
+
+	parsedVersions.Range(func(k, _ any) bool { parsedVersions.Delete(k); return true })
+	parsedConstraints.Range(func(k, _ any) bool { parsedConstraints.Delete(k); return true })
+}
+
+func verifPkgID(p *repositoryPackage) string {
+	return p.Name + "=" + p.Version + "@" + p.pinnedName
+}
+
+// VerifResolverPrototype reports the state of the cached resolver prototype
+// for exactly this index list: whether one exists, how many entries its
+// `selected` map has, and its nameMap / installIfMap with every slice rendered
+// in order ("name=version@pin").
+func VerifResolverPrototype(indexes []NamedIndex) (found bool, selected int, nameMap, installIfMap map[string][]string) {
+	globalResolverCache.Lock()
+	defer globalResolverCache.Unlock()
+	pr := globalResolverCache.find(indexes)
+	if pr == nil {
+		return false, 0, nil, nil
+	}
+	render := func(m map[string][]*repositoryPackage) map[string][]string {
+		out := make(map[string][]string, len(m))
+		for k, v := range m {
+			s := make([]string, len(v))
+			for i, p := range v {
+				s[i] = verifPkgID(p)
+			}
+			out[k] = s
+		}
+		return out
+	}
+	return true, len(pr.selected), render(pr.nameMap), render(pr.installIfMap)
+}
+
+// VerifDisqualifyCacheEntry reports the cached disqualification set that
+// disqualifyCache.Get would hand out (before cloning) for this grouping: the
+// key is computed exactly as Get computes it (so it is subject to the same map
+// iteration order). The packages are returned in no particular order.
+func VerifDisqualifyCacheEntry(byArch map[string][]NamedIndex) (found bool, pkgs []*RepositoryPackage) {
+	globalDisqualifyCache.Lock()
+	defer globalDisqualifyCache.Unlock()
+	indexes := slices.Concat(slices.Collect(maps.Values(byArch))...)
+	slices.SortFunc(indexes, func(a, b NamedIndex) int { return strings.Compare(a.Name(), b.Name()) })
+	dq := globalDisqualifyCache.find(indexes)
+	if dq == nil {
+		return false, nil
+	}
+	for p := range dq {
+		pkgs = append(pkgs, p)
+	}
+	return true, pkgs
+}
+
+// VerifDisqualifyDifference runs the uncached computation.
+func VerifDisqualifyDifference(byArch map[string][]NamedIndex) (pkgs []*RepositoryPackage) {
+	for p := range disqualifyDifference(context.Background(), byArch) {
+		pkgs = append(pkgs, p)
+	}
+	return pkgs
+}
+
+// VerifMemoSizes reports how many entries the two memo tables hold.
+func VerifMemoSizes() (versions, constraints int) {
+	parsedVersions.Range(func(_, _ any) bool { versions++; return true })
+	parsedConstraints.Range(func(_, _ any) bool { constraints++; return true })
+	return
+}
+
+// VerifMemoInconsistent re-parses every key of parsedVersions and
+// parsedConstraints and reports the keys whose stored value differs from what
+// parsing returns now.
+func VerifMemoInconsistent() (bad []string) {
+	parsedVersions.Range(func(k, v any) bool {
+		p, err := ParseVersion(k.(string))
+		if err != nil || fmt.Sprintf("%#v", p) != fmt.Sprintf("%#v", v.(Version)) {
+			bad = append(bad, "version:"+k.(string))
+		}
+		return true
+	})
+	parsedConstraints.Range(func(k, v any) bool {
+		p := ResolvePackageNameVersionPin(k.(string))
+		if p != v.(ParsedConstraint) {
+			bad = append(bad, "constraint:"+k.(string))
+		}
+		return true
+	})
+	sort.Strings(bad)
+	return bad
+}
